@@ -420,6 +420,7 @@ class _:
 class _:
     shapes = dict(s='mpf', t='mpf')
     result = 'int'
+    search = 'two_mpf_inputs'
     default_props = ['C05']
     all_props = ['C05']
 
@@ -506,6 +507,7 @@ class _:
 class _:
     shapes = dict(s='mpf')
     result = 'int'
+    search = 'one_mpf_inputs'
     default_props = ['C05']
     all_props = ['C05']
 
@@ -767,3 +769,24 @@ class _:
         return ModSpec(result, s, t, prec, rnd)
 
     ghost = {('tsign, tman, texp, tbc = t', 0, 'after'): ['split ssign 0 1', 'split tsign 0 1']}
+
+
+@contract(M + 'mpf_perturb')
+class _:
+    """x + eps with directed rounding (eps tiny, of the given sign); only canonical form and the
+    precision bound are under contract here"""
+    shapes = dict(x='mpf', eps_sign='int', prec='int')
+    result = 'mpf'
+    props = dict(wf=['C01'], bits=['C10'])
+    all_props = ['C01', 'C10']
+
+    def requires(x, eps_sign, prec, rnd):
+        return WFfin(x) and x[1] != 0 and (eps_sign == 0 or eps_sign == 1) and prec >= 1
+
+    def ensures_wf(x, eps_sign, prec, rnd, result):
+        return WF(result)
+
+    def ensures_bits(x, eps_sign, prec, rnd, result):
+        return special(result) or result[3] <= prec
+
+    ghost = {('sign, man, exp, bc = x', 0, 'after'): ['split eps_sign 0 1']}
